@@ -87,6 +87,22 @@ pub fn run(out: &mut Out, tier: &str, seed: u64) {
         }
     }
 
+    // typed targets: small documents that almost fit them, behind blank lines (errors raised by serde visitors must
+    // locate themselves like syntax errors)
+    {
+        let shapes = ["\"A\"", "\"B\"", "\"Z\"", "{\"A\":1}", "{\"A\":\"x\"}", "{\"B\":1}", "{\"C\":{\"x\":1}}", "{\"D\":[1]}", "{\"A\":1,\"B\":null}", "[\"A\",\"B\"]", "[1,2,3]", "{\"a\":1}", "{\"a\":\"x\"}", "{\"a\":1,\"zz\":2}", "{\"a\":1,\"e\":\"A\"}", "{\"a\":1,\"e\":{\"D\":[1,\"x\"]}}", "[1,\"s\"]", "[300,\"s\"]", "[1]", "null", "{\"k\":1.5}", "{\"300\":true}", "{\"1\":2}", "\"ab\"", "\"\"", "1", "[[1,2],[3]]", "[\"x\"]"];
+        for sh in shapes {
+            for pre in ["", " ", "\n\n ", "\n\t\n\n"] {
+                for post in ["", "\n", " x"] {
+                    let d = format!("{pre}{sh}{post}");
+                    out.count("typed-shapes");
+                    for (name, r) in entry::parse_entries(d.as_bytes()) {
+                        report(out, name, d.as_bytes(), &r);
+                    }
+                }
+            }
+        }
+    }
     // API level: every rejected input x every error-returning entry point
     for _ in 0..ndocs {
         let g = gen::gen_doc(&mut rng, &cfg);
